@@ -63,15 +63,18 @@ type Violation struct {
 
 // Run is the state of one check run.
 type Run struct {
-	ID      string
-	Tier    string
-	Seed    int64
-	Start   time.Time
-	OutDir  string
-	EvDir   string
-	Replay  bool // replay mode: no evidence, verbose
-	Child   bool // child-process mode: violations are printed as CHILD-VIOLATION json lines for the parent
-	Workers int
+	ID        string
+	Tier      string
+	Seed      int64
+	Start     time.Time
+	OutDir    string
+	EvDir     string
+	Replay    bool // replay mode: no evidence, verbose
+	MiniRange int  // index-range bound of one Parallel phase in a compact re-run
+	Mini      bool // compact re-run inside a child process (ProcsChildren): sizes cut down, large index ranges subsampled, no evidence file
+	miniSeq   atomic.Int64
+	Child     bool // child-process mode: violations are printed as CHILD-VIOLATION json lines for the parent
+	Workers   int
 
 	mu        sync.Mutex
 	evals     atomic.Int64
@@ -109,6 +112,14 @@ func (r *Run) Thorough() bool { return r.Tier == "thorough" }
 func (r *Run) Pick(q, t int) int {
 	if r.Thorough() {
 		return t
+	}
+	if r.Mini {
+		if q >= 32 {
+			return q / 16
+		}
+		if q >= 2 {
+			return 2
+		}
 	}
 	return q
 }
@@ -201,6 +212,16 @@ func Hash(s string) uint64 {
 // chunking; each worker has its own accumulator.
 func (r *Run) Parallel(n int, chunk int, fn func(w *W, i int)) {
 	if chunk < 1 {
+		chunk = 1
+	}
+	if miniRange := r.MiniRange; r.Mini && n > miniRange {
+		// compact re-run: a seed- and phase-determined residue class of the index range
+		stride := (n + miniRange - 1) / miniRange
+		off := int((uint64(r.Seed)*0x9E3779B97F4A7C15 + uint64(r.miniSeq.Add(1))*0xD1342543DE82EF95) >> 33 % uint64(stride))
+		inner := fn
+		m := (n - off + stride - 1) / stride
+		fn = func(w *W, j int) { inner(w, off+j*stride) }
+		n = m
 		chunk = 1
 	}
 	var next atomic.Int64
@@ -349,6 +370,9 @@ func clipAny(v interface{}) string {
 
 // CleanOut removes old replay files of this property.
 func (r *Run) CleanOut() {
+	if r.Child {
+		return
+	}
 	m, _ := filepath.Glob(filepath.Join(r.OutDir, "replay-*.json"))
 	for _, f := range m {
 		os.Remove(f)
@@ -360,6 +384,10 @@ func (r *Run) CleanOut() {
 func (r *Run) Finish(rule string, exhaustive bool, distinct int64, floorEvals, floorDistinct int64, assumptions []string) int {
 	wall := time.Since(r.Start).Seconds()
 	evals := r.evals.Load()
+	if r.Mini {
+		fmt.Printf("CHILD-DONE evaluations=%d violations=%d wall=%.1fs\n", evals, r.nviol.Load(), wall)
+		return 0
+	}
 	if evals < floorEvals {
 		r.Inconclusive("observed %d evaluations, below the floor %d", evals, floorEvals)
 	}
@@ -522,8 +550,12 @@ func childBinary() string {
 // RunChildChecks starts the monitor binary with an internal command and forwards the violations the
 // child reports (CHILD-VIOLATION lines) into this run.  It returns the child's other output lines.
 func (r *Run) RunChildChecks(tag string, args ...string) ([]string, error) {
+	return r.runChildChecksEnv(tag, nil, args...)
+}
+
+func (r *Run) runChildChecksEnv(tag string, env []string, args ...string) ([]string, error) {
 	cmd := exec.Command(childBinary(), args...)
-	cmd.Env = os.Environ()
+	cmd.Env = append(os.Environ(), env...)
 	out, err := cmd.Output()
 	var rest []string
 	for _, line := range strings.Split(string(out), "\n") {
@@ -543,6 +575,74 @@ func (r *Run) RunChildChecks(tag string, args ...string) ([]string, error) {
 		}
 	}
 	return rest, err
+}
+
+// ProcsChildren re-runs this monitor, cut down, in fresh child processes whose GOMAXPROCS is each of
+// procs, every Parallel phase restricted to a residue class of at most rangeLimit indexes (a table sharded, striped or filled "per P" is only complete for some processor counts; a
+// single-P process takes code paths no 16-P process takes).  Violations the children find are
+// reported by this run; their evaluations are added to its count.
+func (r *Run) ProcsChildren(rangeLimit int, procs ...int) {
+	if r.Child || r.Replay || os.Getenv("VERIF_NO_PROCS") != "" {
+		return
+	}
+	type res struct {
+		rest []string
+		err  error
+	}
+	out := make([]res, len(procs))
+	var wg sync.WaitGroup
+	for i, p := range procs {
+		wg.Add(1)
+		go func(i, p int) {
+			defer wg.Done()
+			lim := rangeLimit
+			if p == 1 && lim > 3000 {
+				lim /= 3 // the single-P child has one core
+			}
+			rest, err := r.runChildChecksEnv(fmt.Sprintf("GOMAXPROCS=%d", p), []string{fmt.Sprintf("GOMAXPROCS=%d", p)}, "procchild", r.ID, fmt.Sprint(r.Seed), fmt.Sprint(lim))
+			out[i] = res{rest, err}
+		}(i, p)
+	}
+	wg.Wait()
+	for i, p := range procs {
+		done := false
+		for _, l := range out[i].rest {
+			var ev, nv int64
+			var wall float64
+			if n, _ := fmt.Sscanf(l, "CHILD-DONE evaluations=%d violations=%d wall=%fs", &ev, &nv, &wall); n == 3 {
+				done = true
+				r.AddEvals(ev)
+				r.Count(fmt.Sprintf("evaluations_in_child_process_with_GOMAXPROCS=%d", p), ev)
+			}
+		}
+		if out[i].err != nil || !done {
+			tail := out[i].rest
+			if len(tail) > 6 {
+				tail = tail[len(tail)-6:]
+			}
+			r.Inconclusive("child process with GOMAXPROCS=%d did not complete: %v %s", p, out[i].err, clip(strings.Join(tail, " | "), 600))
+		}
+	}
+	r.Phase(fmt.Sprintf("compact re-run in child processes, GOMAXPROCS=%v", procs))
+}
+
+func init() {
+	internals["procchild"] = func(args []string, seed int64, dir string) int {
+		m := Get(args[0])
+		if m == nil {
+			return 3
+		}
+		if len(args) > 1 {
+			fmt.Sscan(args[1], &seed)
+		}
+		r := NewRun(m.ID, "quick", seed, dir)
+		r.Child, r.Mini, r.MiniRange = true, true, 6000
+		if len(args) > 2 {
+			fmt.Sscan(args[2], &r.MiniRange)
+		}
+		m.Run(r)
+		return 0
+	}
 }
 
 // GCStress runs fn while a background goroutine forces garbage collections every few milliseconds
